@@ -122,7 +122,7 @@ var props = map[string]*propCfg{
 		stubs: []string{"Walk / Transform callbacks and Transformer (spies with injected prune, failure, replacement)", "caller of the PathSet API (seeded history)"}},
 	"C17": {quickRuns: 1 << 40, quickBudget: 30 * time.Second, thorBudget: 9 * time.Minute, thorRuns: 1 << 40, level: "exploration", procShrink: 40, rlimitAS: 3 << 30, runTimeout: 30 * time.Second,
 		rule: "one evaluation = one simulated store round trip: 2..5 records are written (valid JSON encodings of generated values, capsule payloads included, under generalized type constraints, a quarter of them structures whose members share one type, MessagePack encodings with unknowns refined in every way and dynamic wrappers at any depth, JSON type descriptions with placeholders and optional attributes, noise over an alphabet of header bytes and JSON punctuation, hand-made extension records with 30 hostile refinement bodies and 19 bare headers with absurd lengths); one record is read back after 1..4 storage faults drawn from a per-run random subset of 13 kinds (bit flip, overwrite with a meaningful byte, torn write, lost sector, duplicated sector, misdirected read splicing a fragment of another record, zero fill, length-field edit guided by the checker's own MessagePack scanner, JSON token damage (kind swap, dropped delimiter, duplicated key, nesting up to 4000 deep, number respelling, token swap, object/array confusion), replacement of an item by a hostile refinement record, replacement by a bare header, a key or string item overwritten by a copy of a sibling) - or undamaged in the 10% control group, which is always read with the encoding type - through all five decoders with a target type equal to, derived from (12 edit kinds) or unrelated to the original; every implied type is fed back as a decoding target. A run is non-trivial when at least one fault changed the record or the record is noise / hand-made; distinct = distinct (codec, relation of the target type, sequence of fired faults).",
-		assumptions: []string{"memory bound: every make() in go-cty's decoder packages (seam inserted by the instrumenter) may request at most 64 KiB + 4096 x record size in total, and total allocation measured by the runtime (confirmed with exact accounting) at most 4 MiB + 16384 x record size; the constant covers the fixed 1 MB read chunk of vmihailenco/msgpack; both over-approximate peak use",
+		assumptions: []string{"memory bound: every make() in go-cty's decoder packages (seam inserted by the instrumenter) may request at most 64 KiB + 4096 x record size in total (judged from the seam's own accounting, whatever the decoder does with the refusal); and the heap in use at its peak over a decode (sampled with the collector running at every 5% of growth; measured only for decodes whose total allocation exceeds the bound, which is the cheap screen) at most 4 MiB + 16384 x record size for the MessagePack decoders (the constant covers the fixed 1 MB read chunk of vmihailenco/msgpack) and 1 MiB + 16384 x record size for the JSON decoders; total allocation itself is NOT bounded: comparing and hashing nested sets of numbers renders the same numbers again and again (671 MB of short-lived garbage for a 6 KB record, 1.5 MB in use)",
 			"decimal exponents beyond 10^6 (10^-4) in a damaged record are cut to that many digits before decoding: go-cty compares and hashes numbers through their full decimal expansion, so rendering larger ones takes minutes per operation (the effect is already reported at 10^6 through its memory footprint, see known_findings.txt)",
 			"conformance of a result to the requested type is go-cty's TestConformance, which disregards optional-attribute annotations as the property says",
 			"a decoder returning (DynamicVal, err) together is an error result; only the error matters",
